@@ -96,6 +96,106 @@ pub fn replay(cases: &str, out: &str) {
 }
 
 #[cfg(feature = "utf16")]
+/// One (regex, haystack): `find_from_utf16` on the UTF-16 encoding with offsets translated back, and
+/// `find_from_ucs2` on BMP-only text, against `find_from` on the string, from every char boundary
+/// (`all_starts`) or a sample of them.
+fn c14_compare(rep: &mut Report, rng: &mut Rng, opt: &regress::Regex, pat: &str, fs: &str, h: &Vec<u32>, all_starts: bool, done: &mut usize) {
+    let hs = ast::to_string(h);
+    let units: Vec<u16> = hs.encode_utf16().collect();
+    // offset translation tables
+    let mut b8 = vec![];
+    let mut b16 = vec![];
+    let (mut o8, mut o16) = (0usize, 0usize);
+    for ch in hs.chars() {
+        b8.push(o8);
+        b16.push(o16);
+        o8 += ch.len_utf8();
+        o16 += ch.len_utf16();
+    }
+    b8.push(o8);
+    b16.push(o16);
+    let to8 = |p: usize| b16.iter().position(|x| *x == p).map(|i| b8[i]);
+    for (ki, &s8) in b8.iter().enumerate() {
+        if !all_starts && ki > 1 && !rng.chance(1, 3) {
+            continue;
+        }
+        *done += 1;
+        let want = run_exec(opt, Exec::Bt, &hs, s8, 64).text;
+        let label = format!("/{}/{} on {:?} from {}", pat, fs, hs, s8);
+        rep.case(&label, !want.is_empty());
+        let got16 = guarded(std::panic::AssertUnwindSafe(|| {
+            let ms: Vec<regress::Match> = opt.find_from_utf16(&units, b16[ki]).take(64).collect();
+            ms
+        }));
+        match got16 {
+            Err(msg) => rep.violation("panic:C14", format!("find_from_utf16 panicked: {}", msg), label.clone()),
+            Ok(ms) => {
+                // translate offsets back
+                let mut out = String::new();
+                let mut ok = true;
+                for (i, m) in ms.iter().enumerate() {
+                    if i > 0 {
+                        out.push(' ');
+                    }
+                    let tr = |r: &std::ops::Range<usize>| -> Option<std::ops::Range<usize>> { Some(to8(r.start)?..to8(r.end)?) };
+                    match tr(&m.range) {
+                        Some(r) => out.push_str(&format!("{}-{}", r.start, r.end)),
+                        None => ok = false,
+                    }
+                    let caps: Vec<Option<std::ops::Range<usize>>> = m
+                        .captures
+                        .iter()
+                        .map(|c| match c {
+                            None => None,
+                            Some(r) => match tr(r) {
+                                Some(x) => Some(x),
+                                None => {
+                                    ok = false;
+                                    None
+                                }
+                            },
+                        })
+                        .collect();
+                    fmt_caps(&mut out, &caps);
+                }
+                if !ok {
+                    rep.violation("impl-vs-spec:C14", "UTF-16 search reported a range inside a surrogate pair".into(), label.clone());
+                } else if out != want && want != "fuel" {
+                    rep.violation("impl-vs-impl:C14", format!("UTF-16 [{}] vs UTF-8 [{}]", out, want), label.clone());
+                }
+            }
+        }
+        // UCS-2 on BMP-only text and BMP-only pattern behaviour
+        if h.iter().all(|c| *c < 0x10000) {
+            rep.count("bmp-haystack");
+            let got = guarded(std::panic::AssertUnwindSafe(|| {
+                let ms: Vec<regress::Match> = opt.find_from_ucs2(&units, b16[ki]).take(64).collect();
+                ms
+            }));
+            match got {
+                Err(msg) => rep.violation("panic:C14", format!("find_from_ucs2 panicked: {}", msg), label.clone()),
+                Ok(ms) => {
+                    let mut out = String::new();
+                    for (i, m) in ms.iter().enumerate() {
+                        if i > 0 {
+                            out.push(' ');
+                        }
+                        let tr = |r: &std::ops::Range<usize>| to8(r.start).unwrap_or(0)..to8(r.end).unwrap_or(0);
+                        let r = tr(&m.range);
+                        out.push_str(&format!("{}-{}", r.start, r.end));
+                        let caps: Vec<Option<std::ops::Range<usize>>> = m.captures.iter().map(|c| c.as_ref().map(|r| tr(r))).collect();
+                        fmt_caps(&mut out, &caps);
+                    }
+                    if out != want && want != "fuel" {
+                        rep.violation("impl-vs-impl:C14", format!("UCS-2 [{}] vs UTF-8 [{}] on BMP text", out, want), label.clone());
+                    }
+                }
+            }
+        }
+    }
+}
+
+#[cfg(feature = "utf16")]
 pub fn c14(rep: &mut Report, n: usize, seed: u64) {
     let mut rng = Rng::new(seed);
     let cfg = GenCfg { max_depth: 3, ..GenCfg::default() };
@@ -104,99 +204,7 @@ pub fn c14(rep: &mut Report, n: usize, seed: u64) {
         let Some(c) = gen_case(&mut rng, &cfg, rep, None) else { continue };
         let hays = ast::haystacks(&c.node, c.flags, &mut rng, 5);
         for h in &hays {
-            let hs = ast::to_string(h);
-            let units: Vec<u16> = hs.encode_utf16().collect();
-            // offset translation tables
-            let mut b8 = vec![];
-            let mut b16 = vec![];
-            let (mut o8, mut o16) = (0usize, 0usize);
-            for ch in hs.chars() {
-                b8.push(o8);
-                b16.push(o16);
-                o8 += ch.len_utf8();
-                o16 += ch.len_utf16();
-            }
-            b8.push(o8);
-            b16.push(o16);
-            let to8 = |p: usize| b16.iter().position(|x| *x == p).map(|i| b8[i]);
-            for (ki, &s8) in b8.iter().enumerate() {
-                if ki > 1 && !rng.chance(1, 3) {
-                    continue;
-                }
-                done += 1;
-                let want = run_exec(&c.opt, Exec::Bt, &hs, s8, 64).text;
-                let label = format!("/{}/{} on {:?} from {}", c.pat, c.flags.to_string(), hs, s8);
-                rep.case(&label, !want.is_empty());
-                let got16 = guarded(std::panic::AssertUnwindSafe(|| {
-                    let ms: Vec<regress::Match> = c.opt.find_from_utf16(&units, b16[ki]).take(64).collect();
-                    ms
-                }));
-                match got16 {
-                    Err(msg) => rep.violation("panic:C14", format!("find_from_utf16 panicked: {}", msg), label.clone()),
-                    Ok(ms) => {
-                        // translate offsets back
-                        let mut out = String::new();
-                        let mut ok = true;
-                        for (i, m) in ms.iter().enumerate() {
-                            if i > 0 {
-                                out.push(' ');
-                            }
-                            let tr = |r: &std::ops::Range<usize>| -> Option<std::ops::Range<usize>> { Some(to8(r.start)?..to8(r.end)?) };
-                            match tr(&m.range) {
-                                Some(r) => out.push_str(&format!("{}-{}", r.start, r.end)),
-                                None => ok = false,
-                            }
-                            let caps: Vec<Option<std::ops::Range<usize>>> = m
-                                .captures
-                                .iter()
-                                .map(|c| match c {
-                                    None => None,
-                                    Some(r) => match tr(r) {
-                                        Some(x) => Some(x),
-                                        None => {
-                                            ok = false;
-                                            None
-                                        }
-                                    },
-                                })
-                                .collect();
-                            fmt_caps(&mut out, &caps);
-                        }
-                        if !ok {
-                            rep.violation("impl-vs-spec:C14", "UTF-16 search reported a range inside a surrogate pair".into(), label.clone());
-                        } else if out != want && want != "fuel" {
-                            rep.violation("impl-vs-impl:C14", format!("UTF-16 [{}] vs UTF-8 [{}]", out, want), label.clone());
-                        }
-                    }
-                }
-                // UCS-2 on BMP-only text and BMP-only pattern behaviour
-                if h.iter().all(|c| *c < 0x10000) {
-                    rep.count("bmp-haystack");
-                    let got = guarded(std::panic::AssertUnwindSafe(|| {
-                        let ms: Vec<regress::Match> = c.opt.find_from_ucs2(&units, b16[ki]).take(64).collect();
-                        ms
-                    }));
-                    match got {
-                        Err(msg) => rep.violation("panic:C14", format!("find_from_ucs2 panicked: {}", msg), label.clone()),
-                        Ok(ms) => {
-                            let mut out = String::new();
-                            for (i, m) in ms.iter().enumerate() {
-                                if i > 0 {
-                                    out.push(' ');
-                                }
-                                let tr = |r: &std::ops::Range<usize>| to8(r.start).unwrap_or(0)..to8(r.end).unwrap_or(0);
-                                let r = tr(&m.range);
-                                out.push_str(&format!("{}-{}", r.start, r.end));
-                                let caps: Vec<Option<std::ops::Range<usize>>> = m.captures.iter().map(|c| c.as_ref().map(|r| tr(r))).collect();
-                                fmt_caps(&mut out, &caps);
-                            }
-                            if out != want && want != "fuel" {
-                                rep.violation("impl-vs-impl:C14", format!("UCS-2 [{}] vs UTF-8 [{}] on BMP text", out, want), label.clone());
-                            }
-                        }
-                    }
-                }
-            }
+            c14_compare(rep, &mut rng, &c.opt, &c.pat, &c.flags.to_string(), h, false, &mut done);
         }
         // arbitrary u16 input incl. lone surrogates: no panic, ranges within the slice
         for _ in 0..4 {
@@ -230,6 +238,29 @@ pub fn c14(rep: &mut Report, n: usize, seed: u64) {
                                     rep.violation("impl-vs-spec:C14", "range outside the u16 slice".into(), label.clone());
                                 }
                             }
+                        }
+                    }
+                }
+            }
+        }
+    }
+
+    // case-insensitive back-references over characters whose case partners differ in encoded length or
+    // fold differently under the legacy and the Unicode relation, through all three entry points
+    let classes: &[&[u32]] = &[
+        &['s' as u32, 'S' as u32, 0x17F], &['k' as u32, 'K' as u32, 0x212A], &[0xDF, 0x1E9E], &[0x3C9, 0x3A9, 0x2126], &[0xE5, 0xC5, 0x212B],
+        &['i' as u32, 'I' as u32, 0x130, 0x131], &[0x10400, 0x10428], &[0xFF, 0x178], &[0xB5, 0x39C, 0x3BC],
+    ];
+    for class in classes {
+        for &a in class.iter() {
+            let a = char::from_u32(a).unwrap();
+            for pat in [format!("({})\\1", a), format!("^({})\\1$", a), format!("[{}]{{2}}", a), format!("(?<=\\1({}))$", a)] {
+                for fs in ["i", "iu", "iv", "u"] {
+                    let Ok(re) = compile(&pat, fs, false) else { continue };
+                    for &x in class.iter() {
+                        for &y in class.iter() {
+                            let h: Vec<u32> = vec!['x' as u32, x, y, 'y' as u32];
+                            c14_compare(rep, &mut rng, &re, &pat, fs, &h, true, &mut done);
                         }
                     }
                 }
